@@ -1,13 +1,11 @@
 (* C15 — OpenQL export is the in-order image of the circuit.
    Property theorems only; each closed by `exact <lemma>`; assumptions printed beneath.
-   `ql_export` is the model of OpenQLCircuitFactoryManager.construct over the listing tree (C15/Model.v) as the structure
-   of API calls it makes; `executed p` = for each item of the program in the order added: a sub-program's executed calls, a
-   kernel's calls; `ql_image t` the hand-written documented calls (C15/Spec.v) of the expanded listing; `ql_wf_tree` the
-   statement's domain (whole non-negative wait durations, distinct qubits on a controlled-phase, repetitions >= 1).
-
-   The full statement does NOT hold for the code as it is (finding F7): it is proved for circuits without sub-circuits
-   (`_partial`), refuted for the code on a three-operation circuit (`_refuted`), and proved in full for a walk that closes
-   the kernel before each sub-circuit (`C15_openql_in_order`: what a repaired exporter satisfies). *)
+   `ql_export` is the model of OpenQLCircuitFactoryManager.construct / _extend_kernel (as of /repo 40c98cf) over the listing
+   tree (C15/Model.v): the structure of API calls it makes -- the model the correspondence run (`agree`) compares with the
+   recorded calls; `executed p` = for each item of the program in the order added: a sub-program's executed calls, a kernel's
+   calls; `ql_image t` the hand-written documented calls (C15/Spec.v) of the expanded listing (blocks in place, `reps`
+   times); `ql_wf_tree` the statement's domain (whole non-negative wait durations, distinct qubits on a controlled-phase,
+   repetition counts >= 1).  `ql_export t cid = Some p`: the export returned. *)
 From Coq Require Import ZArith List Bool String.
 Import ListNotations.
 From QCE Require Import Base.Prelude C08.Tree C08.Model C15.Model C15.Spec C15.Proofs.
@@ -16,54 +14,52 @@ Open Scope string_scope.
 Open Scope list_scope.
 Open Scope Z_scope.
 
-(* circuits without sub-circuits: the export exists, executes exactly the documented calls in listing order (cz + barrier +
-   two phase updates for a controlled-phase, waits with their duration, unsupported kinds omitted), in one kernel, under
-   the specified names *)
-Theorem C15_partial : forall t cid, has_block t = false -> ql_wf_tree t = true ->
-  exists p, ql_export t cid = Some p /\ executed p = ql_image t
-            /\ fst p = spec_pname t cid /\ snd p = [QKernel (spec_kname t) (ql_image t)].
-Proof. exact C15_partial_lemma. Qed.
-
-(* the code as it is: x180; block x1 [y90]; x90 executes y90 first *)
-Theorem C15_refuted : exists t, ql_wf_tree t = true /\
-  exists p, ql_export t None = Some p /\ executed p <> ql_image t.
-Proof. exact C15_refuted_lemma. Qed.
-
-(* a walk that closes the own kernel before every sub-circuit (Model.qlc_export, any scheme `fresh` of kernel names)
-   satisfies the statement in full: all trees, any nesting and repetition counts *)
-Theorem C15_openql_in_order : forall fresh t cid p, ql_wf_tree t = true -> qlc_export fresh t cid = Some p ->
-  executed p = ql_image t.
-Proof. exact openql_in_order_documented. Qed.
-
-(* the 12-line repair evaluated for F7 (one kernel, sub-circuits expanded in place; Model.qli_export; not applied): the full
-   statement, with the specified names *)
-Theorem C15_patched_walk_in_order : forall t cid p, ql_wf_tree t = true -> qli_export t cid = Some p ->
+(* the full statement, all trees (flat and nested, any repetition counts): the exported program executes exactly the
+   documented calls of the expanded listing, in listing order (cz + barrier + two phase updates for a controlled-phase,
+   waits with their duration, sub-circuits in place and `reps` times, unsupported kinds omitted), in one kernel, under the
+   specified names *)
+Theorem C15_openql_in_order : forall t cid p, ql_wf_tree t = true -> ql_export t cid = Some p ->
   executed p = ql_image t /\ p = (spec_pname t cid, [QKernel (spec_kname t) (ql_image t)]).
-Proof. exact openql_patched_in_order. Qed.
+Proof. exact openql_in_order. Qed.
 
-(* the factory table is the documented one *)
+(* on that domain the export does return *)
+Theorem C15_openql_total : forall t cid, ql_wf_tree t = true -> exists p, ql_export t cid = Some p.
+Proof. exact openql_total. Qed.
+
+(* outside the domain too: whenever the export returns it is one kernel holding the model-level calls of the expanded listing *)
+Theorem C15_openql_walk : forall t cid p, ql_export t cid = Some p ->
+  p = (PN 0 (base_of t cid), [QKernel (KN (key t)) (flat_map calls_list (expand t))])
+  /\ Forall (fun l => leaf_calls l <> None) (expand t).
+Proof. exact openql_walk. Qed.
+
+(* the factory table is the documented one; each accepted operation makes exactly the documented calls *)
 Theorem C15_table_documented : forall k g, doc_ql_gate k = Some g <-> openql_gate k = Some [KT_gate g QE_ids].
 Proof. exact ql_table_documented. Qed.
+Theorem C15_leaf_documented : forall l cs, ql_wf_leaf l = true -> leaf_calls l = Some cs -> cs = ql_spec_calls l.
+Proof. exact ql_leaf_doc. Qed.
 
-(* names: every program and kernel name is a function of the classes of the listing (their nesting and repetition
-   counts) and the given id -- for every function standing for the uuid5 prefix *)
+(* the same circuit always yields the same names: program and kernel names are a function of the class-name sequence of
+   the decomposed listing (and the given id) only -- for every function standing for the uuid5 prefix *)
 Theorem C15_names_deterministic : forall (uuid8 : list string -> string) t1 t2 cid p1 p2,
-  kinds_tree t1 = kinds_tree t2 -> ql_export t1 cid = Some p1 -> ql_export t2 cid = Some p2 ->
+  map kind_name (key t1) = map kind_name (key t2) -> ql_export t1 cid = Some p1 -> ql_export t2 cid = Some p2 ->
   render_names uuid8 p1 = render_names uuid8 p2.
 Proof. exact openql_names_deterministic. Qed.
+Theorem C15_names_spec : forall (uuid8 : list string -> string) t cid p, ql_export t cid = Some p ->
+  render_names uuid8 p = [match cid with Some s => s | None => ("program_" ++ uuid8 (map kind_name (key t)))%string end;
+                          ("kernel_" ++ uuid8 (map kind_name (key t)))%string].
+Proof. exact openql_names_spec. Qed.
 
-(* the program name and the name of the own kernel (the last item) depend on the class-name sequence only *)
-Theorem C15_top_names : forall (uuid8 : list string -> string) t1 t2 p1 p2,
-  map kind_name (key t1) = map kind_name (key t2) -> ql_export t1 None = Some p1 -> ql_export t2 None = Some p2 ->
-  render_pname uuid8 (fst p1) = render_pname uuid8 (fst p2) /\
-  (forall its1 k1 c1 its2 k2 c2, snd p1 = its1 ++ [QKernel k1 c1] -> snd p2 = its2 ++ [QKernel k2 c2] ->
-     render_kname uuid8 k1 = render_kname uuid8 k2).
-Proof. exact openql_top_names. Qed.
+(* HISTORY ONLY -- about `ql_export_old`, the walk of the code before commit 40c98cf (finding F7, fixed), not about the
+   current code: sub-programs were added during the walk and the own kernel last; x180; block x1 [y90]; x90 executed y90 first *)
+Theorem C15_old_walk_refuted : exists t, ql_wf_tree t = true /\
+  exists p, ql_export_old t None = Some p /\ executed p <> ql_image t.
+Proof. exact old_walk_refuted. Qed.
 
-Print Assumptions C15_partial.
-Print Assumptions C15_refuted.
 Print Assumptions C15_openql_in_order.
-Print Assumptions C15_patched_walk_in_order.
+Print Assumptions C15_openql_total.
+Print Assumptions C15_openql_walk.
 Print Assumptions C15_table_documented.
+Print Assumptions C15_leaf_documented.
 Print Assumptions C15_names_deterministic.
-Print Assumptions C15_top_names.
+Print Assumptions C15_names_spec.
+Print Assumptions C15_old_walk_refuted.
